@@ -25,6 +25,10 @@ Oracle : (independent of the model) payloads tagged with their circuit leave onl
          correctly signed by the neighbour stored for that id (matrix id x signer {adjacent, member, outsider, a stranger with a
          key of its own} x signature {valid, broken, key substituted} x table role x source address {the signer's own; for the
          stranger's validly signed destroys also the adjacent hop's exact address (spoofed) and its IP on another port}); a
+         plaintext created carrying the identifier of an extend pending at a relay but naming another id known there (an exit
+         socket of another originator's circuit, the relay's own circuit) or an unknown id, from the extend target or an
+         outsider, leaves that id's entry alone, installs no relay route under it, and its circuit keeps carrying data both
+         ways with nothing of it reaching the extending circuit's originator; a
          forged plaintext created at the originator of a half-built circuit with another identifier, or with a well-sized key
          that does not verify, of the wrong size or all zero, from the first hop's address or an unrelated host, changes nothing
          (entry, state, verified / unverified hops, retry cache) and the genuine answer afterwards still completes the hop; when a
@@ -1038,6 +1042,101 @@ async def create_in_use_mixed(ctx, tn, loop, book, r):
     return n
 
 
+async def misnamed_created(ctx, loop, book_of, r):
+    """a plaintext created that carries the IDENTIFIER of an extend pending at relay R (circuit B) but names, as the cell's
+    circuit id, another id Y known at R - an exit socket of R (circuit of another originator), a circuit of R's own - or an
+    unknown id; sent by the extend target and by an outsider.  Whatever R makes of B's extend, Y is none of it: Y's entry
+    is the same object under the same keys, no relay route appears under Y, Y's circuit still carries data both ways and
+    nothing that travels over Y reaches B's originator."""
+    import struct
+    from ipv8.messaging.anonymization.caches import CreateRequestCache
+    from ipv8.messaging.anonymization.payload import CellPayload, CreatedPayload
+    n = 0
+    for ykind in ("exit-socket", "own-circuit", "unknown"):
+        for sname in ("extend-target", "outsider"):
+            tn = CNet(n_relays=2, n_exits=2, exit_flags=(2, 4, 8))
+            await tn.start()
+            book = book_of(tn)
+            try:
+                O, R, T, P = tn.origin, tn.nodes["exit0"], tn.nodes["exit1"], tn.nodes["relay0"]
+                cy_exit = await build_via(tn, P, [R])                 # Y1: exit socket at R, circuit of originator P
+                cy_own = await build_via(tn, R, [T])                  # Y2: R's own circuit
+                if cy_exit is None or cy_own is None:
+                    ctx.broke("misnamed created: the circuits of Y were not built")
+                    continue
+                ev0 = []
+                await tn.tick(loop, 6, ev0)
+                book.add_all(ev0, {"kind": "tick"})
+                # circuit B: O -> R -> T, stopped while R's create to T is on its way
+                kb = {ov: ov.my_peer.public_key.key_to_bin() for ov in (R, T)}
+                saved = O.candidates
+                first = next(p for p in saved if p.public_key.key_to_bin() == kb[R])
+                O.candidates = {first: saved[first]}
+                try:
+                    cb = O.create_circuit(2, required_exit=next(p for p in saved if p.public_key.key_to_bin() == kb[T]))
+                finally:
+                    O.candidates = saved
+                evs = []
+                pending = None
+                for _ in range(12):
+                    pending = next((cch for k, cch in R.request_cache._identifiers.items() if k.startswith("create:")), None)
+                    if pending is not None:
+                        break
+                    await tn.drain_c(evs, limit=1)
+                    await tn.settle_tasks()
+                book.add_all(evs, {"kind": "build", "what": "circuit B up to the pending extend"})
+                if pending is None:
+                    ctx.broke("misnamed created: no extend pending at the relay")
+                    continue
+                tn.net.queue.clear()                       # R's create to T is lost: only the forged answer arrives
+                y = {"exit-socket": path_of_exit(tn, cy_exit), "own-circuit": cy_own.circuit_id, "unknown": r.getrandbits(32)}[ykind]
+                yo, yc = {"exit-socket": (P, cy_exit), "own-circuit": (R, cy_own), "unknown": (None, None)}[ykind]
+                msg = R.serializer.pack_serializable(CreatedPayload(y, pending.number, bytes(r.randrange(1, 256) for _ in range(32)), bytes(32), b""))[4:]
+                cell = CellPayload(y, struct.pack("!B", 3) + msg, plaintext=True)
+                src = tuple(T.my_peer.address) if sname == "extend-target" else ("203.0.113.60", 6000)
+                before = (id(R.exit_sockets.get(y)), id(getattr(R.exit_sockets.get(y), "hop", None) and R.exit_sockets[y].hop.keys),
+                          id(R.circuits.get(y)), y in R.relay_from_to)
+                meta = {"kind": "misnamed-created", "names": ykind, "sender": sname,
+                        "what": "plaintext created with the identifier of the extend pending for circuit B, naming %s at the relay, sent by %s" % (
+                            {"exit-socket": "the id of an exit socket (another originator's circuit)", "own-circuit": "the id of the relay's own circuit",
+                             "unknown": "an unknown id"}[ykind], sname)}
+                evs = [await tn.event(src, tuple(R.my_peer.address), cell.to_bin(R._prefix))]
+                await tn.drain_c(evs)
+                await tn.tick(loop, 6, evs)
+                await tn.drain_c(evs)
+                book.add_all(evs, meta)
+                n += 1
+                ctx.count(("misnamed-created", ykind, sname), nontrivial=True)
+                after = (id(R.exit_sockets.get(y)), id(getattr(R.exit_sockets.get(y), "hop", None) and R.exit_sockets[y].hop.keys),
+                         id(R.circuits.get(y)), y in R.relay_from_to)
+                if after != before:
+                    ctx.violation("misnamed-created/entry-of-named-id-changed", "%s: the relay's tables under that id changed (%s)" % (
+                        meta["what"], "a relay route was installed under it" if after[3] and not before[3] else "entry replaced"), meta)
+                    continue
+                if yc is not None:
+                    alive = await alive_both_ways(tn, yo, yc, r)
+                    if not alive:
+                        ctx.violation("misnamed-created/named-circuit-broken", "%s: the circuit under that id no longer carries data both ways" % meta["what"], meta)
+                        continue
+                    # traffic of Y observed event by event: nothing of it arrives at B's originator
+                    data = tagged(r, yc, 4242)
+                    yo.send_data(yc.hop.address, yc.circuit_id, ("192.0.2.7", 9), NULL, data)
+                    evs = []
+                    await tn.drain_c(evs)
+                    if any(e["node"] == O._verif_name for e in evs):
+                        ctx.violation("misnamed-created/traffic-of-named-circuit-reaches-other-originator",
+                                      "%s: datagrams caused by traffic on that id arrive at circuit B's originator" % meta["what"], meta)
+            finally:
+                await tn.stop()
+    return n
+
+
+def path_of_exit(tn, c):
+    """the id under which circuit c's exit socket is filed at its exit node"""
+    p = c04.path_of(tn, c)
+    return p[-1][1]
+
+
 async def forged_cells(ctx, tn, book, r, circuits):
     """cells naming an unknown id, or a known id with a body not made with that circuit's keys"""
     n = 0
@@ -1356,6 +1455,17 @@ async def _run(ctx, loop):
     finally:
         await tn.stop()
     evaluate(ctx, tn, book, "destroy")
+    # ---- 3b: a created carrying a pending extend's identifier but naming another id of the relay
+    books = []
+
+    def book_of(net):
+        b = Book(ctx)
+        books.append((net, b))
+        return b
+    stats["misnamed_created"] = await misnamed_created(ctx, loop, book_of, r)
+    for i, (net, b) in enumerate(books):
+        if not ctx.quick or i in (0, 3):          # quick: one exit-socket and one own-circuit variant go through the models
+            evaluate(ctx, net, b, "misnamed%d" % i)
     # ---- 4: forged plaintext created at a half-built circuit (oracle only)
     stats["half_built"] = await half_built(ctx, loop, r)
     ctx.extra["scenario_counts"] = stats
@@ -1423,6 +1533,8 @@ async def replay_case(case, loop):
             await shared_exit(ctx, tn, loop, book, r)
         elif kind == "destroy":
             await destroy_matrix(ctx, tn, loop, book, r)
+        elif kind == "misnamed-created":
+            await misnamed_created(ctx, loop, lambda net: Book(ctx), r)
         elif kind == "half-built-created":
             await half_built(ctx, loop, r, only=case)
         else:
@@ -1493,6 +1605,7 @@ def run(ctx):
                             "exit with delayed transport opening interleaved with first packets + outside replies; destroy matrix {own, other, unknown id} x {adjacent, "
                             "other member, outsider, stranger with its own key} x {signature ok, bad, key substituted} x {relay-in, relay-out, exit, circuit} x source "
                             "address {own; stranger + valid signature: adjacent hop's address spoofed, its IP on another port} + the legitimate destroys; "
+                            "created with a pending extend's identifier naming {exit-socket id, own-circuit id, unknown id} of the relay x sender {extend target, outsider}; "
                             "forged plaintext created at the originator of a half-built circuit (0 / 1 verified hops) x identifier {pending, other} x key "
                             "{32 bytes unverifiable, 32 zero bytes, 31 bytes} x source {first hop, unrelated}, then the genuine answer; "
                             "every delivered datagram / timer advance is one lockstep case; distinct = distinct scenario parameters")
